@@ -335,7 +335,12 @@ const (
 	ErrCompilation       ErrKind = "compilation"
 	ErrSchema            ErrKind = "schema"
 	ErrMetadataOverride  ErrKind = "metadata-override"
-	ErrOther             ErrKind = "other"
+	// ErrAccountRace: two transactions used a never-seen account at the same time; UpsertAccounts inserts it without
+	// ON CONFLICT, so the one that commits second fails on the accounts_ledger unique index and is rolled back. No listed
+	// property forbids a concurrent write from failing, so the concurrent checks treat it as a failed write (which must
+	// have no effect); it cannot occur in a sequential history.
+	ErrAccountRace ErrKind = "account-first-use-race"
+	ErrOther       ErrKind = "other"
 )
 
 func classify(err error) ErrKind {
@@ -360,6 +365,8 @@ func classify(err error) ErrKind {
 		return ErrSchema
 	case errors.Is(err, &ledgercontroller.ErrMetadataOverride{}):
 		return ErrMetadataOverride
+	case strings.Contains(err.Error(), `unique constraint "accounts_ledger"`):
+		return ErrAccountRace
 	}
 	return ErrOther
 }
